@@ -114,10 +114,32 @@ def check_nodes(ctx):
                 exp = None
             if cls == 'StepTerm':
                 arg = CHILD(sp.Symbol('self.arg', real=True))
-                for av, want in ((2, 1), (-3, 0)):
+                # module-level numeric constants the test may mention (`EPS = 1e-9`) are put in; arguments close to 0 are tried too:
+                # Heaviside(e) is 0 for every negative e, however small
+                consts = {}
+                for st_ in prog.mod('types').tree.body:
+                    if isinstance(st_, ast.Assign) and len(st_.targets) == 1 and isinstance(st_.targets[0], ast.Name):
+                        try:
+                            cv_ = ast.literal_eval(st_.value)
+                        except Exception:
+                            continue
+                        if isinstance(cv_, (int, float)) and not isinstance(cv_, bool):
+                            consts[st_.targets[0].id] = sp.nsimplify(cv_, rational=True)
+
+                def decide(cond, av):
+                    v_ = cond.subs(arg, av)
+                    v_ = v_.subs({x_: consts[str(x_)] for x_ in v_.free_symbols if str(x_) in consts})
+                    if v_ in (sp.true, sp.false):
+                        return bool(v_)
+                    return None
+                for av, want in ((2, 1), (-3, 0), (sp.Rational(-1, 10**15), 0), (sp.Rational(1, 10**15), 1)):
                     got = None
                     for c, v in vals:
-                        if all(bool(cond.subs(arg, av)) == t for cond, t in c.conds):
+                        ds_ = [decide(cond, av) for cond, t in c.conds]
+                        if any(d_ is None for d_ in ds_):
+                            problems.append('the step test %s depends on something other than the argument' % [str(cond) for cond, t in c.conds])
+                            break
+                        if all(d_ == t for d_, (cond, t) in zip(ds_, c.conds)):
                             got = v
                             break
                     if got is None or sp.simplify(got - want) != 0:
